@@ -92,6 +92,11 @@ bool bare_ok(const ustr &s) {
     return m_valid_key(s);
 }
 ustr gen_bare_string(Rng &r, const GenCfg &c) {
+    if (r.chance(1, 10)) {
+        // texts one step away from the number grammar (and a few inside it): whitespace-delimited values that are, or are not, numbers
+        static const char *const N[] = { "-.", "+.", ".e3", "-.(3)", "+.e-2", ".(1)", "1e", "1e+", "1(", "1()", "1(2", "(1)", "e5", "+", "-", "--1", "1.2.3", "0x10", "1,5", "1.", ".5", "-5.", "+.5e1", "1.(2)", "12(3)", "1E5", "1e-3(4)", "4.e2", "1..", "1e5.", "1(2)3", "+-1", "1e5e6" };
+        return U(N[r.below(sizeof N / sizeof N[0])]);
+    }
     for (;;) {
         ustr s;
         static const char F[] = "abcdefghijklmnopqrstuvwxyzABCDEFGHIJKLMNOPQRSTUVWXYZ0123456789+-.?";
